@@ -47,6 +47,7 @@ LEVEL["decided"] += ' (R05.11) the single-source tool tables of R01.12 (items ta
 LEVEL["decided"] += ' End-of-source detections are part of every compared trace (tool tables, islice, zip_longest, merge): an exhausted source is asked again exactly where the counterpart asks (found F12). (R05.13/R05.14/R05.15) groupby histories, tee histories and the merge table with the items taken from the source after every operation.'
 LEVEL["decided"] += " The tables also compare the interleaving of requests to the sources, calls of the user's callable and hand-outs of items (tool tables, islice, zip_longest, merge). One open known finding: batched ends without asking its exhausted source once more where itertools.batched does (F16)."
 LEVEL["technique"] += '; whole-tool tables and groupby / tee / merge histories by abstract evaluation over an object model (end-of-source detections included)'
+LEVEL["decided"] += ' (R05.18) the truth value of a predicate / function / key never decides whether it is called (R03.12, shared).'
 LEVEL["decided"] += ' (R05.16) the adapter around a synchronous source asks for one item per step, also for a collection that produces its items when asked (never a snapshot); (R05.17) a tee child that waited for the lock re-tests its buffer before it asks the source (R09.2, shared).'
 
 TOOLS = c01.PASS_THROUGH + c01.TRANSFORMING
@@ -82,6 +83,10 @@ def run(ctx) -> None:
     ctx.rule("R05.17", "tee: a child that had to wait for the lock tests its buffer again before it asks the source: no item is "
                        "taken that no child requested (R09.2, shared)")
     c09.run(Relabel(ctx, "R05.17", only=("R09.2",)))
+    from . import c03 as _c03
+    ctx.rule("R05.18", "a user's callable is invoked wherever the counterpart invokes it, also one that is falsy (a callable object "
+                       "with __len__ or __bool__): whether one was given is decided by `is None`, never by its truth value (R03.12, shared)")
+    _c03.r03_12(Relabel(ctx, "R05.18"), modules=("builtins", "itertools", "heapq", "_core"))
     from . import c16
     ctx.rule("R05.8", "groupby: pulling an item and computing its key are one step (after a failed or cancelled key call the item "
                       "is not left behind as if it had been keyed) (R16.3, shared)")
@@ -310,6 +315,10 @@ def r05_3(ctx) -> None:
             ctx.check(path is None, "R05.3", u, r, f"`{holder}.{puller}()` happens only after `{holder}.head` was yielded "
                       "(one head per source, refilled after yielding)", node=r, witness=pretty_path(path))
     # the initial fill takes exactly one head per source
+    if not ctx.pkg.has_unit("heapq._KeyIter.from_iters"):
+        ctx.note("R05.3: merge has no per-source fill generator in this shape; that the initial fill takes one head per source is "
+                 "decided by the merge table (items taken per source)")
+        return
     f = ctx.unit("heapq._KeyIter.from_iters")
     fcfg = cfg_of(f)
     # (a head is taken by a direct pull or by the holder's own pulling method on a fresh holder)
@@ -328,7 +337,7 @@ def r05_9(ctx, rid: str = "R05.9") -> None:
                       "`while <at least two holders>` loop; the last source's tail is yielded without calling key")
     roles = c01.holder_roles(ctx)
     puller = roles["puller"].node.name
-    fill = ctx.unit("heapq._KeyIter.from_iters")
+    fill = ctx.unit("heapq._KeyIter.from_iters") if ctx.pkg.has_unit("heapq._KeyIter.from_iters") else None
     mod = ctx.pkg.module("heapq")
     for u in mod.units.values():
         if u.is_overload() or u is roles["puller"] or u is fill:
@@ -345,6 +354,26 @@ def r05_9(ctx, rid: str = "R05.9") -> None:
                         and isinstance(a.test.comparators[0], ast.Constant):
                     c, op = a.test.comparators[0].value, type(a.test.ops[0])
                     ok = ok or (op is ast.Gt and c >= 1) or (op is ast.GtE and c >= 2)
+            if not ok:
+                # ... or a test on the number of holders on the way: every path from the head of the loop the refill sits in
+                # takes the branch on which at least two holders exist (``if len(heap) == 1: <drain the last>; break``)
+                two_or_more = {("Gt", 1, "t"), ("GtE", 2, "t"), ("Eq", 1, "f"), ("LtE", 1, "f"), ("Lt", 2, "f"), ("NotEq", 1, "t")}
+                evidence = set()
+                for b in cfg.nodes:
+                    t = b.ast
+                    if b.kind == "branch" and isinstance(t, ast.Compare) and len(t.ops) == 1 and isinstance(t.left, ast.Call) \
+                            and norm(t.left.func) == "len" and isinstance(t.comparators[0], ast.Constant):
+                        for lab in ("t", "f"):
+                            if (type(t.ops[0]).__name__, t.comparators[0].value, lab) in two_or_more:
+                                evidence.add((b, lab))
+                loops_ = [a for (k, a) in n.regions if k == "loop"]
+                heads = [x for x in cfg.nodes if loops_ and x.ast is loops_[-1] and not x.tag] or [cfg.entry]
+                if evidence:
+                    path = None
+                    for h in heads:
+                        path = path or find_path(h, lambda x, n=n: x is n,
+                                                 edge_ok=lambda a, lab, b_: lab not in ("e", "p") and (a, lab) not in evidence)
+                    ok = path is None
             ctx.check(ok and ctx.pkg.canonical(u) == "heapq.merge", rid, u, n,
                       "the holder is refilled (and its key computed) only while at least two sources are being merged",
                       node=n)
